@@ -325,7 +325,9 @@ Definition o_expected (d : list N) : N :=       (* utils::JoinUInt8(data[2], dat
 
 (* the `while (offset >= OPC_HEADER_SIZE)` loop of the fixed SocketReady; None = the copy in
    CheckSize would not fit the new buffer *)
-Fixpoint o_frames (fuel : nat) (d : list N) (cap : N) : option (ostate * list msg) :=
+(* reg ch = a callback is registered for channel ch (m_callbacks): a complete frame for a channel
+   without one is consumed and skipped *)
+Fixpoint o_frames (reg : N -> bool) (fuel : nat) (d : list N) (cap : N) : option (ostate * list msg) :=
   match fuel with
   | O => Some ({| o_data := d; o_cap := cap |}, [])     (* not reached: see o_frames_fuel *)
   | Datatypes.S f =>
@@ -341,8 +343,9 @@ Fixpoint o_frames (fuel : nat) (d : list N) (cap : N) : option (ostate * list ms
         else
           match d with
           | ch :: cmd :: _ =>
-            match o_frames f (drop (e + OPC_HEADER_SIZE) d) cap1 with
-            | Some (s, out) => Some (s, (ch * 256 + cmd, take e (drop OPC_HEADER_SIZE d)) :: out)
+            match o_frames reg f (drop (e + OPC_HEADER_SIZE) d) cap1 with
+            | Some (s, out) =>
+              Some (s, (if reg ch then [(ch * 256 + cmd, take e (drop OPC_HEADER_SIZE d))] else []) ++ out)
             | None => None
             end
           | _ => Some ({| o_data := d; o_cap := cap1 |}, [])
@@ -350,7 +353,7 @@ Fixpoint o_frames (fuel : nat) (d : list N) (cap : N) : option (ostate * list ms
   end.
 
 (* OPCServer::SocketReady: Receive(data + offset, buffer_size - offset) then the frame loop *)
-Definition o_recv (s : ostate) (av : list N) : ores :=
+Definition o_recv (reg : N -> bool) (s : ostate) (av : list N) : ores :=
   let room := usub32 (o_cap s) (len (o_data s)) in
   let k := N.min room (len av) in           (* Receive returns min(room, available) bytes *)
   let got := take k av in
@@ -358,7 +361,7 @@ Definition o_recv (s : ostate) (av : list N) : ores :=
   if o_cap s <? len (o_data s) + len got then None
   else
     let d := o_data s ++ got in
-    match o_frames (Datatypes.S (length d)) d (o_cap s) with
+    match o_frames reg (Datatypes.S (length d)) d (o_cap s) with
     | Some (s1, out) => Some (s1, r, out)
     | None => None
     end.
@@ -431,8 +434,9 @@ Fixpoint ref_robe_f (fuel : nat) (s : list N) : list msg :=
   end.
 Definition ref_robe (s : list N) : list msg := ref_robe_f (length s) s.
 
-(* OPC: channel command len_hi len_lo data[len]; no invalid frames, no resynchronisation. *)
-Fixpoint ref_opc_f (fuel : nat) (s : list N) : list msg :=
+(* OPC: channel command len_hi len_lo data[len]; no invalid frames, no resynchronisation.  Frames
+   for a channel nobody registered for (reg ch = false) are skipped, nothing else is affected. *)
+Fixpoint ref_opc_f (reg : N -> bool) (fuel : nat) (s : list N) : list msg :=
   match fuel with
   | O => []
   | Datatypes.S f =>
@@ -440,11 +444,11 @@ Fixpoint ref_opc_f (fuel : nat) (s : list N) : list msg :=
     | ch :: cmd :: hi :: lo :: r =>
       let n := hi * 256 + lo in
       if len r <? n then []
-      else (ch * 256 + cmd, take n r) :: ref_opc_f f (drop n r)
+      else (if reg ch then [(ch * 256 + cmd, take n r)] else []) ++ ref_opc_f reg f (drop n r)
     | _ => []
     end
   end.
-Definition ref_opc (s : list N) : list msg := ref_opc_f (length s) s.
+Definition ref_opc (reg : N -> bool) (s : list N) : list msg := ref_opc_f reg (length s) s.
 
 (* ------------------------------------------------------------------ ACN over TCP (IncomingStreamTransport) *)
 (* a_rdata = the bytes of [m_buffer_start, m_data_end) in REVERSE order (so that storing is cheap),
@@ -715,7 +719,7 @@ Record fstate := { f_rdata : list N; f_off : N; f_exp : option N; f_cap : N }.
 Definition f_init : fstate := {| f_rdata := []; f_off := 0; f_exp := None; f_cap := OPC_FRAME_SIZE |}.
 Definition o_abs (f : fstate) : ostate := {| o_data := rev_append (f_rdata f) []; o_cap := f_cap f |}.
 
-Definition f_recv (f : fstate) (av : list N) : option (fstate * list N * list msg) :=
+Definition f_recv (reg : N -> bool) (f : fstate) (av : list N) : option (fstate * list N * list msg) :=
   let room := usub32 (f_cap f) (f_off f) in
   let '(rd, r, miss) := take_rev av room (f_rdata f) in
   let off := f_off f + (room - miss) in
@@ -737,7 +741,7 @@ Definition f_recv (f : fstate) (av : list N) : option (fstate * list N * list ms
         else
           (* at least one complete frame: flatten once and run the frame loop *)
           let d := rev_append rd [] in
-          match o_frames (Datatypes.S (length d)) d (f_cap f) with
+          match o_frames reg (Datatypes.S (length d)) d (f_cap f) with
           | Some (s1, out) =>
             Some ({| f_rdata := rev_append (o_data s1) []; f_off := len (o_data s1); f_exp := None;
                      f_cap := o_cap s1 |}, r, out)
